@@ -117,6 +117,12 @@ def _worker_of(prog, drv_path):
 def _canonical_order(prog, rt_path):
     """(id, types, new_types, retained_mappings) by parameter type, whatever order they are declared in"""
     f = prog.fns.get(rt_path)
+    if f is not None and len(f.get("inputs", [])) == 2 and prog.ty_s(f["inputs"][0]) == "u32":
+        # `fn retain_type(id, state: &mut State)`: the free-function spelling of the method form `State::retain_type(&mut self, id)`
+        t2 = prog.ty(prog.peel_refs(f["inputs"][1]))
+        if t2["k"] == "adt" and t2.get("d", "").startswith(prog.crate + "::") and prog.adts.get(t2["d"], {}).get("kind") == "struct":
+            mir.canonicalise_params(prog, rt_path, [2, 1])
+        return
     if f is None or len(f.get("inputs", [])) != 4:
         return
     roles = {}
@@ -157,10 +163,17 @@ def check_config(chk, prog, cfg):
 
     if b.arg_count == 2:
         f_ = prog.fns[rt_path]
-        st_ = prog.ty(prog.peel_refs(f_["inputs"][0]))
+        # the struct holding the collections is `self` or, in a free function `retain_type(id, state)`, the other parameter
+        s_ix = 0
+        for k_ in (0, 1):
+            tk_ = prog.ty(prog.peel_refs(f_["inputs"][k_]))
+            if tk_["k"] == "adt" and prog.adts.get(tk_.get("d"), {}).get("kind") == "struct" and tk_.get("d", "").startswith(prog.crate + "::"):
+                s_ix = k_
+                break
+        st_ = prog.ty(prog.peel_refs(f_["inputs"][s_ix]))
         adt_ = prog.adts.get(st_.get("d")) if st_["k"] == "adt" else None
         if adt_ is not None and adt_["kind"] == "struct":
-            ARG1 = ("arg", 1, b.names.get(1))
+            ARG1 = ("arg", s_ix + 1, b.names.get(s_ix + 1))
             roles = {}
             for idx_, fl in enumerate(adt_["variants"][0]["fields"]):
                 ts = prog.ty(fl["ty"])["s"]
@@ -173,7 +186,7 @@ def check_config(chk, prog, cfg):
                     roles.setdefault("types", []).append((term, fl["name"]))
             if all(len(roles.get(k_, [])) == 1 for k_ in ("map", "new", "types")):
                 METHOD = {"self": ARG1, "adt": st_["d"], "names": {k_: roles[k_][0][1] for k_ in roles}}
-                A_ID = ("arg", 2, b.names.get(2))
+                A_ID = ("arg", 2 - s_ix, b.names.get(2 - s_ix))
                 A_TYPES, A_NEW, A_MAP = roles["types"][0][0], roles["new"][0][0], roles["map"][0][0]
     if METHOD is None:
         if b.arg_count != 4:
@@ -358,10 +371,13 @@ def check_config(chk, prog, cfg):
     seen_id_store = {}
     final_store = None
     label_store = None
+    store_list = []
     for st in b.stores():
         kind, bb, j, lhs_pl, rhs = st
-        lhs = b.place_term(lhs_pl)
-        val = b.rvalue_term(rhs) if kind == "assign" else b.call_term(rhs, bb=bb)
+        lhs0_ = b.place_term(lhs_pl)
+        val0_ = b.rvalue_term(rhs) if kind == "assign" else b.call_term(rhs, bb=bb)
+        store_list += [(kind, bb, l_, v_) for l_, v_ in _unroll_ref_array(b, lhs0_, val0_)]
+    for kind, bb, lhs, val in store_list:
         ap = paths.access_path(b, lhs, roots={entry})
         if ap is None:
             alts_ = _phi_places(b, lhs, entry)
@@ -800,6 +816,28 @@ def find_rewriters(prog, rt_path):
         if good and rels:
             out[sp] = rels
     return out
+
+
+def _unroll_ref_array(b, lhs, val):
+    """`for p in [&mut a, &mut b] { *p = f(p) }`: the loop variable denotes each listed place in turn -- one store per place"""
+    hit = None
+    for x in mir.walk(lhs):
+        if x[0] == "field" and x[1][0] == "downcast" and x[1][3] == "Some" and x[1][1][0] == "call" and last(x[1][1][1]["name"]) == "next" and len(x[1][1][2]) == 1:
+            it = mir.strip_transparent(x[1][1][2][0])
+            if it[0] != "var":
+                continue
+            ini = b.var_init(it[1])
+            if len(ini) != 1:
+                continue
+            r = ini[0]
+            while r[0] == "call" and last(r[1]["name"]) == "into_iter" and len(r[2]) == 1:
+                r = r[2][0]
+            if r[0] == "agg" and r[1] == "array" and r[3] and all(e[0] == "ref" for e in r[3]):
+                hit = (x, list(r[3]))
+                break
+    if hit is None:
+        return [(lhs, val)]
+    return [(mir.subst(lhs, {hit[0]: e}), mir.subst(val, {hit[0]: e})) for e in hit[1]]
 
 
 def _phi_places(b, lhs, entry):
